@@ -214,6 +214,35 @@ func (o *resyncObs) classify(filter int) {
 	sort.Strings(o.removedTop)
 }
 
+// keepOld tells which announced files legitimately keep the bytes the old
+// destination had: files whose identity did not change, and - under the
+// hard-link timing exception - old link members that the destination walker
+// may have seen as plain files: if their identity is otherwise equal and no
+// content was requested for them, they keep what they had.
+func (o *resyncObs) keepOld(filter int) func(string) bool {
+	requested := map[string]bool{}
+	for _, p := range o.reqPaths {
+		requested[p] = true
+	}
+	return func(p string) bool {
+		if !o.may[p] {
+			return o.unchanged[p]
+		}
+		st, d := o.annIdx[p], o.destStat[p]
+		if st == nil || d == nil || requested[p] {
+			return false
+		}
+		fst := st
+		if flt := ownerFilter(filter); flt != nil {
+			fst = st.Clone()
+			flt(fst.Path, fst)
+		}
+		a, b := keyOf(fst), keyOf(d)
+		a.Link, b.Link = "", ""
+		return a == b
+	}
+}
+
 func sortedKeys(m map[string]bool) []string {
 	out := make([]string, 0, len(m))
 	for k := range m {
